@@ -522,8 +522,14 @@ func resolveRenames(p *Prog) []string {
 			if !ok {
 				continue
 			}
-			key := relTypeString(tn.Type())
-			want, ok := inventoryStructs[invConfigName(p.Cfg)][key]
+			key := structKey(relTypeString(tn.Type()))
+			var want []invField
+			ok = false
+			for k, v := range inventoryStructs[invConfigName(p.Cfg)] {
+				if structKey(k) == key {
+					want, ok = v, true
+				}
+			}
 			if !ok || len(want) != st.NumFields() {
 				continue
 			}
@@ -644,7 +650,7 @@ func astFieldName(pk *packages.Package, sel *ast.SelectorExpr) string {
 			if p, isP := recv.Underlying().(*types.Pointer); isP {
 				recv = p.Elem()
 			}
-			if m := canonFields[relTypeString(recv)]; m != nil {
+			if m := canonFields[structKey(relTypeString(recv))]; m != nil {
 				if old, ok := m[sel.Sel.Name]; ok {
 					return old
 				}
@@ -668,4 +674,13 @@ func lookupByCanonName(scope *types.Scope, name string) types.Object {
 		}
 	}
 	return nil
+}
+
+// structKey: the name of a struct type without type parameters / arguments, so that a generic declaration
+// (`T[P constraint]`) and its instantiations (`T[*jsonNode]`) share one entry.
+func structKey(s string) string {
+	if i := strings.Index(s, "["); i >= 0 {
+		return s[:i]
+	}
+	return s
 }
